@@ -1118,6 +1118,7 @@ func TestVerifC32Opcodes(t *testing.T) {
 	type job struct {
 		si      int
 		version uint64
+		first   bool // the lowest version that has the opcode
 	}
 	var jobs []job
 	for si, sp := range specs {
@@ -1127,8 +1128,8 @@ func TestVerifC32Opcodes(t *testing.T) {
 			if !ok {
 				continue
 			}
+			jobs = append(jobs, job{si, v, !found})
 			found = true
-			jobs = append(jobs, job{si, v})
 			if lang[v] == nil {
 				continue
 			}
@@ -1175,7 +1176,15 @@ func TestVerifC32Opcodes(t *testing.T) {
 				st := &c32Stats{}
 				var last c32Case
 				jobViol := 0
+				// quick tier: the complete boundary product runs in the version that introduced the opcode, in
+				// the current release version and in the newest one; the other versions run a PRNG-chosen
+				// quarter of it. The thorough tier runs everything in every version.
+				full := !c.Quick() || j.first || j.version >= LogicVersion-1
+				thin := c.Rand(3232, uint64(j.si), j.version)
 				c32Cases(sp, r, nrand, func(cs c32Case) {
+					if !full && !thin.Chance(1, 4) {
+						return
+					}
 					if jobViol >= 3 || c.Violations() > 300 { // a few witnesses per (opcode, version) are enough
 						return
 					}
@@ -1242,7 +1251,7 @@ func TestVerifC32Opcodes(t *testing.T) {
 	}
 
 	c.Require("ops_covered", int64(len(specs)))
-	c.Require("expected_failures", 10000)
-	c.Require("expected_successes", 100000)
+	c.Require("expected_failures", 100000)
+	c.Require("expected_successes", 500000)
 	c.Require("langspec_crosschecks", 100)
 }
